@@ -85,7 +85,11 @@ class Lifespan:
         if not self.supported:
             return
 
-        await self.app_send_channel.send({"type": "lifespan.shutdown"})
+        try:
+            await self.app_send_channel.send({"type": "lifespan.shutdown"})
+        except trio.ClosedResourceError:
+            return  # The app has already finished with the lifespan scope
+
         try:
             with trio.fail_after(self.config.shutdown_timeout):
                 await self.shutdown.wait()
